@@ -26,11 +26,14 @@ pub struct Ctl {
     pub slow_us: AtomicU32,
     /// every pair metric evaluation takes this many microseconds (workers hold their shard longer)
     pub slow_metric_us: AtomicU32,
+    /// copying a track's metric takes this many microseconds (a track being copied by the library
+    /// stays in whatever place the library put it for that long)
+    pub slow_clone_us: AtomicU32,
 }
 
 impl Ctl {
     pub fn new() -> Arc<Self> {
-        Arc::new(Ctl { counter: AtomicU32::new(0), fail_at: AtomicI64::new(-1), slow_us: AtomicU32::new(0), slow_metric_us: AtomicU32::new(0) })
+        Arc::new(Ctl { counter: AtomicU32::new(0), fail_at: AtomicI64::new(-1), slow_us: AtomicU32::new(0), slow_metric_us: AtomicU32::new(0), slow_clone_us: AtomicU32::new(0) })
     }
     pub fn reset(&self, fail_at: i64) {
         self.counter.store(0, Ordering::SeqCst);
@@ -190,10 +193,20 @@ impl TrackAttributes<HA, HO> for HA {
 
 pub const MAX_OBS: usize = 4;
 
-#[derive(Clone, Debug)]
+#[derive(Debug)]
 pub struct HM {
     pub calls: u32,
     pub ctl: Arc<Ctl>,
+}
+
+impl Clone for HM {
+    fn clone(&self) -> Self {
+        let us = self.ctl.slow_clone_us.load(Ordering::Relaxed);
+        if us > 0 {
+            std::thread::sleep(std::time::Duration::from_micros(us as u64));
+        }
+        HM { calls: self.calls, ctl: self.ctl.clone() }
+    }
 }
 
 impl HM {
@@ -258,6 +271,13 @@ impl ObservationMetric<HA, HO> for HM {
         self.ctl.tick("metric.optimize")?;
         if obs.iter().any(|o| o.attr().as_ref().map(|x| x.0 == 666).unwrap_or(false)) {
             return Err(anyhow!("optimise refuses observation 666"));
+        }
+        // a refusal that depends on the combination: 10 and 11 can each be stored, a class that
+        // would hold both is refused - so a merge of two storable tracks can fail in the optimise
+        // step of one class (and succeed for the others)
+        let has = |v: i32| obs.iter().any(|o| o.attr().as_ref().map(|x| x.0 == v).unwrap_or(false));
+        if has(10) && has(11) {
+            return Err(anyhow!("optimise refuses 10 together with 11"));
         }
         Ok(())
     }
